@@ -1,6 +1,6 @@
 from collections.abc import Callable
 from copy import deepcopy
-from types import EllipsisType, GenericAlias, NoneType, UnionType
+from types import EllipsisType, GenericAlias, MappingProxyType, NoneType, UnionType
 from typing import (
     Annotated,
     Any,
@@ -115,6 +115,31 @@ class StateMeta(type):
         state_type.__match_args__ = state_type.__slots__  # pyright: ignore[reportAttributeAccessIssue]
 
         return state_type
+
+
+def _deep_copy(
+    value: Any,
+    memo: dict[int, Any] | None,
+    /,
+) -> Any:
+    # mappings are kept as mappingproxy which can't be copied by deepcopy - copy the immutable
+    # containers prepared when validating (possibly nested) here and the rest the regular way
+    if isinstance(value, MappingProxyType):
+        return MappingProxyType(
+            {
+                _deep_copy(key, memo): _deep_copy(element, memo)
+                for key, element in cast(MappingProxyType[Any, Any], value).items()
+            }
+        )
+
+    elif type(value) is tuple:  # pyright: ignore[reportUnknownArgumentType]
+        return tuple(_deep_copy(element, memo) for element in cast(tuple[Any, ...], value))
+
+    elif type(value) is frozenset:  # pyright: ignore[reportUnknownArgumentType]
+        return frozenset(_deep_copy(element, memo) for element in cast(frozenset[Any], value))
+
+    else:
+        return deepcopy(value, memo)
 
 
 def _type_argument_key(
@@ -332,7 +357,7 @@ class State(metaclass=StateMeta):
     ) -> Self:
         copy: Self = self.__class__(
             **{
-                key: deepcopy(
+                key: _deep_copy(
                     value,
                     memo,
                 )
